@@ -5,6 +5,7 @@ import re
 from ..core import AnalysisError
 from .shared_py import inn
 from ..pyfront import unparse
+from ..pyfront import ws  # noqa: E402,F401
 from .. import templ, predabs
 from . import shared_gen as G
 from . import shared_cxx as X
@@ -65,7 +66,7 @@ def size_ladder(ctx, L):
                     if not execute(st.body if t else st.orelse, am, maybe, out):
                         return False
                 else:
-                    g = re.sub(r'\s+', ' ', unparse(st.test))
+                    g = ws(unparse(st.test))
                     r1 = execute(st.body, am, maybe + [g], out)
                     r2 = execute(st.orelse, am, maybe + ['not ' + g], out)
                     if r1 != r2:
@@ -75,7 +76,7 @@ def size_ladder(ctx, L):
             elif isinstance(st, ast.Continue):
                 return False
             elif isinstance(st, (ast.Assign, ast.AugAssign, ast.Expr)):
-                out.append((re.sub(r'\s+', ' ', unparse(st)), tuple(maybe), st))
+                out.append((ws(unparse(st)), tuple(maybe), st))
             else:
                 raise AnalysisError('generate_struct_get_byte_size: statement kind %s not modelled' % type(st).__name__)
         return True
@@ -111,14 +112,14 @@ def size_ladder(ctx, L):
             why = 'a member without a negative marker runs nothing but its size term; executed: %s' % [t for t, _ in rest]
         L.check(okg, 'F10.size-align-group', 'get_byte_size|%s|pad%+d' % (a.label(), a.padding), f.site(loop), why, str(rest)[:300])
     L.floor('F10.size-term', n, 120)
-    pre = [re.sub(r'\s+', ' ', unparse(s)) for s in f.node.body if s is not loop and f.node.body.index(s) < f.node.body.index(loop)]
+    pre = [ws(unparse(s)) for s in f.node.body if s is not loop and f.node.body.index(s) < f.node.body.index(loop)]
     L.check(sorted(pre) == ['bytes_ = 0', 'elems = []'], 'F10.size-align-group', 'get_byte_size|init', f.site(),
             'the running static size and the term list start empty', str(pre))
-    tail = [re.sub(r'\s+', ' ', unparse(s)) for s in f.node.body[-2:]]
+    tail = [ws(unparse(s)) for s in f.node.body[-2:]]
     L.check(tail == ['if bytes_: elems += [str(bytes_)]', "return 'return {0};\\n'.format(' + '.join(elems))"], 'F10.size-align-group',
             'get_byte_size|tail', f.site(), 'remaining static bytes are added and all terms summed', str(tail))
     gb = m.func('_get_byte_size')
-    s = re.sub(r'\s+', ' ', unparse(gb.node))
+    s = ws(unparse(gb.node))
     L.check(inn('if isinstance(node, model.Enum): return DISC_SIZE', s) and inn('return BUILTIN_SIZES.get(node.type_name)', s)
             and inn('return node.byte_size', s) and inn('node = _get_leaf(node)', s), 'F10.size-term', '_get_byte_size', gb.site(),
             'element size: enums 4, builtins by table, composites by byte_size, through typedef chains', s[:200])
